@@ -85,7 +85,20 @@ func c03Container(r *run.Run) {
 				}
 			}
 			if present == 0 {
-				c.Skip("no table")
+				// nothing to write: an error, or a well-formed container without tables - not a panic
+				buf := &bytes.Buffer{}
+				var err error
+				if p := guard(func() { _, err = header.Write(buf, scaler, tables) }); p != "" {
+					c.Fail("C03.panic", "header.Write without a table: "+explore.PanicSignature(p), "header.Write panics for a map without tables (%v): %s", desc, p)
+					return
+				}
+				c.Outcome("no table", err != nil, buf.Len())
+				if err == nil {
+					if _, probs := refsfnt.Walk(buf.Bytes()); len(probs) > 0 {
+						c.Fail("C03.wellformed", "header.Write without a table", "%s (%d bytes)", probs[0], buf.Len())
+					}
+				}
+				return
 			}
 			// storage of the caller's slices: separate allocations, or consecutive sub-slices of one
 			// array (tables cut out of a memory image) in ascending / descending tag order, the last one
